@@ -22,9 +22,12 @@ pub const O_WS: u32 = 256;
 pub const O_OPTS: u32 = 512;
 pub const O_SORT: u32 = 1024;
 pub const O_RANGE: u32 = 2048;
+/// not an oracle but a mode: call the library with OutputVerification::Full (its answer must still be the formatted program)
+pub const O_VERIFY: u32 = 4096;
 
 thread_local! {
     pub static IN_SUBJECT: std::cell::Cell<bool> = const { std::cell::Cell::new(false) };
+    pub static VERIFY_MODE: std::cell::Cell<bool> = const { std::cell::Cell::new(false) };
 }
 
 #[derive(Clone, Debug)]
@@ -72,7 +75,8 @@ pub fn run_format(text: &str, cfg: &Cfg, width: usize, range: Option<(Option<usi
     let t0 = Instant::now();
     MY_SLOT.with(|m| *m.lock().unwrap() = Some(InFlight { since: t0, text: text.to_string(), cfg: *cfg, width, range }));
     IN_SUBJECT.with(|f| f.set(true));
-    let res = std::panic::catch_unwind(std::panic::AssertUnwindSafe(|| format_code(text, config, r, OutputVerification::None)));
+    let verification = if VERIFY_MODE.with(|v| v.get()) { OutputVerification::Full } else { OutputVerification::None };
+    let res = std::panic::catch_unwind(std::panic::AssertUnwindSafe(|| format_code(text, config, r, verification)));
     IN_SUBJECT.with(|f| f.set(false));
     MY_SLOT.with(|m| *m.lock().unwrap() = None);
     let dt = t0.elapsed();
@@ -543,6 +547,12 @@ fn record(
 }
 
 pub fn run_task(plan: &Plan, case: &Case, cfg: &Cfg, st: &mut Stats, fails: &mut Vec<Failure>) {
+    VERIFY_MODE.with(|v| v.set(plan.oracles & O_VERIFY != 0));
+    run_task_inner(plan, case, cfg, st, fails);
+    VERIFY_MODE.with(|v| v.set(false));
+}
+
+fn run_task_inner(plan: &Plan, case: &Case, cfg: &Cfg, st: &mut Stats, fails: &mut Vec<Failure>) {
     st.tasks += 1;
     let need_ast = plan.oracles & (O_OPTS | O_SORT | O_IGN | O_RANGE) != 0;
     let input = analyse(&case.text, cfg.syn, need_ast);
@@ -650,7 +660,9 @@ pub fn run_task(plan: &Plan, case: &Case, cfg: &Cfg, st: &mut Stats, fails: &mut
                     continue;
                 }
                 Out::OtherErr(e) => {
-                    if plan.oracles & O_TOTAL != 0 {
+                    // (with the library's own verification switched on, a verification error is that step doing its
+                    // conservative job — only a panic or a hang is judged in that mode)
+                    if plan.oracles & O_TOTAL != 0 && plan.oracles & O_VERIFY == 0 {
                         record(&mut task_fails, &mut seen_fail, "wrong-error", case, cfg, w, range, e, "");
                     }
                     continue;
